@@ -45,7 +45,7 @@ func applyDistributedLoadToNodes(load *load.DistributedLoad, trailNode, leadNode
 	trailNode.AddLocalLeftLoad(
 		trailFx,
 		trailFy,
-		(startLoad.Mz()*halfLength)+trailFyMoment,
+		(0.5*(startLoad.Mz()+endLoad.Mz())*halfLength)+trailFyMoment,
 	)
 
 	var (
@@ -56,7 +56,7 @@ func applyDistributedLoadToNodes(load *load.DistributedLoad, trailNode, leadNode
 	leadNode.AddLocalRightLoad(
 		leadFx,
 		leadFy,
-		(startLoad.Mz()*halfLength)+leadFyMoment,
+		(0.5*(startLoad.Mz()+endLoad.Mz())*halfLength)+leadFyMoment,
 	)
 }
 
